@@ -21,7 +21,8 @@ RULE = ("enumeration: scenario = (numprocesses 1-3, worker behaviour in "
         "k of the fault-free run x every victim x {exit 0, exit 3, killed "
         "by SIGKILL} is one case.  histories: <= 30 ops from {stop, restart, "
         "rm, quit, start, incr, decr, set, reload, deaths, faults, checks, "
-        "time}; on-demand family: one on-demand watcher on a real managed "
+        "time}, stop-phase hooks (before/after_signal, _stop, _reap) with any "
+        "outcome on a quarter of the watchers; on-demand family: one on-demand watcher on a real managed "
         "socket (+ optionally a plain one), client connections as socket "
         "events.  Non-trivial = the stop overlapped a stubborn worker or an "
         "injected death, or a non-start request / check followed a completed "
@@ -426,6 +427,17 @@ def _strategy():
                 wc["stop_children"] = True
             if draw(st.integers(0, 6)) == 0:
                 wc["respawn"] = False
+            if draw(st.integers(0, 3)) == 0:
+                # stop-phase hooks: whatever they answer, a stop completes
+                hk = {}
+                for hn in draw(st.lists(st.sampled_from(
+                        ['before_signal', 'after_signal', 'before_stop',
+                         'after_stop', 'before_reap', 'after_reap']),
+                        min_size=1, max_size=2, unique=True)):
+                    hk[hn] = [draw(st.sampled_from(
+                        ['false', 'raise', 'none', 'true'])),
+                        draw(st.booleans())]
+                wc["hooks"] = hk
             watchers.append(wc)
         names = [wc["name"] for wc in watchers]
         tape = draw(st.lists(behaviours(gts=tuple(sorted(set(gts))),
